@@ -11,7 +11,7 @@ def determinism(props, runs, seed, reps=3):
         info = coord.PROPS[prop]
         tmp = tempfile.mkdtemp(prefix="verif-det-", dir=os.environ.get("VERIF_TMP", "/var/tmp"))
         try:
-            binary = coord.build(info["engine"], tmp)
+            binary = coord.build(info["engine"], tmp, inject=info.get("inject"))
             results = []
             for rep, (workers, gmp) in enumerate([(1, "1"), (4, "4"), (16, "16")][:reps]):
                 hashes = {}
